@@ -22,9 +22,9 @@ if schedx_part is not None and not all(hasattr(schedx_part, f) for f in ("corres
 class Check(PropertyCheck):
     pid = "C11"
     props_module = "Properties.Properties_C11"
-    extra_targets = ["Extract/ExtractSchedC.vo"] + (list(getattr(schedx_part, "extra_targets", [])) if schedx_part else [])
-    gen_files = ["SchedCTab.v"] + (list(getattr(schedx_part, "gen_files", [])) if schedx_part else [])
-    extra_props = list(getattr(schedx_part, "extra_props_c11", [])) if schedx_part else []
+    extra_targets = ["Extract/ExtractSchedC.vo", "Extract/ExtractPool.vo"] + (list(getattr(schedx_part, "extra_targets", [])) if schedx_part else [])
+    gen_files = ["SchedCTab.v", "PoolTab.v"] + (list(getattr(schedx_part, "gen_files", [])) if schedx_part else [])
+    extra_props = (list(getattr(schedx_part, "extra_props_c11", [])) if schedx_part else []) + ["Properties.Properties_C11pool"]
     trusted_base = [
         "Coq 8.16.1 kernel (coqc); no axioms (Print Assumptions: closed under the global context)",
         "translator lib/gen_schedc.py: guards can_*, TRANSM_THRESH, task_list order, pqueue_init capacities, "
@@ -34,7 +34,14 @@ class Check(PropertyCheck):
         "hand model SchedC/SchedC.v of the do_* bodies, reader, writer and worker loop; tied by replaying hook-H3 traces of "
         "the real binary through the extracted step function (harness/schedc_replay.ml, ExtrOcamlBasic only)",
         "pthread semantics: mutual exclusion, condition variables with spurious wake-ups and no lost signal while a "
-        "waiter is registered; the binary heap of process.h is abstracted to a position-sorted list",
+        "waiter is registered",
+        "queues: the scheduler models use lists (deque) and position-sorted lists (pqueue); Properties_C11pool proves that the "
+        "array-level models of the process.h macros and of up_heap()/down_heap() (index arithmetic regenerated structurally by "
+        "lib/gen_pool.py into Gen/PoolTab.v, 32-bit unsigned) refine exactly those lists for every capacity <= 2^31 with no "
+        "out-of-bounds index, uninitialised read or failed assert; tied to the C by harness/pool_h.c vs the extracted model on "
+        "random operation sequences (checks/pool_part.py).  For EQUAL keys the heap returns some minimal element: SchedC has "
+        "strictly sorted keys (proved); SchedX's model takes the first minimal element in list order, which is faithful only "
+        "for distinct keys (not proved there)",
     ]
     assumptions = [
         "num_worker >= 1",
@@ -172,6 +179,16 @@ class Check(PropertyCheck):
             "samples": [{"job": list(r["job"]), "records": len(r["trace"]), "first": r["trace"][:2]} for r in results[:3]],
             "histogram": hist, "replay_failures": fails,
         }
+        try:
+            import pool_part
+            pc = pool_part.correspond(self) or {}
+            cov["evaluations"] += int(pc.get("evaluations", 0))
+            cov["distinct_nontrivial"] += int(pc.get("distinct_nontrivial", 0))
+            cov["queue_primitives"] = {k: v for k, v in pc.items() if k != "samples"}
+        except vlib.BuildError:
+            raise
+        except Exception as e:
+            self.broken.append(Broken("correspondence", "pool_part.correspond crashed", repr(e)[:500]))
         if schedx_part:
             try:
                 cx = schedx_part.correspond_x(self) or {}
@@ -189,6 +206,8 @@ class Check(PropertyCheck):
         import f9_part
         v += f9_part.hunt(self)
         v += f9_part.ring_wrap_hunt(self)
+        import pool_part
+        v += pool_part.direct(self) or []
         return v[:6]
 
     def search(self):
